@@ -52,13 +52,58 @@ FOCUS = {
          "malformed invocations (unknown option, missing option-argument) are rejected with a diagnostic, a non-zero status and no effect"],
 }
 
+# round E: other clauses of the statements than round D
+FOCUS_E = {
+ "C01": ["`$@` and `$*`, quoted or not, follow their special rules: zero positional parameters, IFS empty or unset, `\"$@\"` adjacent to other text in the same word, `$*` joined by the first IFS character",
+         "`${#x}` counts characters; with `nounset` an unset parameter is an error exactly where POSIX says so (not for `$@`, `$*`, nor for the forms that supply a default), and only unquoted expansion results are split while literal text of the word never is"],
+ "C02": ["each command name is resolved in the POSIX search order: special built-in, function, other built-in, then `PATH`",
+         "`case` runs the first matching item and yields zero if none matches; `if`/`elif` chains; `return` leaves only the innermost function (nested function calls, loops around the call keep running)"],
+ "C03": ["negative or oversize shift counts, overflow in `*`, unary minus and the compound assignments (`*=`, `-=`, `<<=`) report an error instead of a wrapped value",
+         "a variable whose value is an integer constant denotes that constant (surrounding blanks, signs, unset or empty meaning 0, variables naming other expressions); no expression text, however malformed, makes the shell panic"],
+ "C04": ["ranges, collating symbols and equivalence classes standing for their literal characters; quoted or backslash-escaped characters match only themselves, also inside a bracket expression",
+         "suffix removal `%` / `%%` deletes exactly the shortest / longest matching suffix; `case` runs the first item with a matching pattern when patterns come from expansions and quoting"],
+ "C05": ["results are in sorted order and never contain a nonexistent path (dangling links, a trailing slash after a file name, unsearchable directories)",
+         "tilde results and quoted characters are literal; never omits a matching path (names with unusual characters, several wildcards in one component, directories reached through several components)"],
+ "C06": ["for every input text the parser ends with a tree or a syntax error, never a panic (multi-byte characters at token boundaries, aliases, here-document delimiters, unterminated constructs, operators at end of input)",
+         "the printed form of words re-parses to the same tree: parameter expansions with modifiers, nested quotes, backquotes, arithmetic expansions, dollar-single-quotes, tildes, and redirection operands"],
+ "C07": ["for every string the quoting function yields a word read back as exactly that one field (control characters, newlines, non-ASCII, a leading `~`, `#`, `=`, reserved words, the empty string)",
+         "the listings printed by `export -p`, `set` (variables) and `typeset -fp` recreate what they list, whatever characters names and values contain"],
+ "C08": ["no element of a multi-command pipeline - including the last one - can change the parent's variables, functions, aliases or open files",
+         "ignored signals stay ignored in the subshell while traps with command actions are reset; a command substitution used in an assignment or redirection operand cannot change the parent's traps, options or positional parameters"],
+ "C09": ["redirections are applied left to right and are in effect exactly while that command runs - for functions, compound commands and built-ins that fail alike",
+         "descriptors the shell opens for its own use stay at 10 or above with close-on-exec set; no command leaves an extra descriptor open when descriptor allocation fails part-way (pipelines, here-documents, command substitutions)"],
+ "C10": ["without `errexit`, redirection errors of ordinary commands, failing commands and command-not-found only set `$?` and execution continues",
+         "the exempt contexts: conditions of while/until and elif, every pipeline of an and-or list but the last; syntax errors abort with the documented status and the commands after the abort point never run"],
+ "C11": ["in a non-interactive shell a signal that was ignored on entry can be neither trapped nor reset, and `trap` output / subshell entry never change that",
+         "each delivery of a trapped signal runs its action exactly once at the next command boundary regardless of when it arrives (inside a pipeline, a command substitution, a function call, a loop, another trap action)"],
+ "C12": ["each process ID designates at most one job, and a non-empty table always has a current job, also after jobs are removed or reported",
+         "`%%`, `%+`, `%-`, `%n`, `%string` and `$!` as used by fg, bg, jobs, wait and kill designate the jobs the documentation says they do"],
+ "C13": ["every child is reaped exactly once (a status asked for twice, `wait` with several operands, jobs that ended before `wait` was called)",
+         "the exit status of a pipeline is that of its last command (rightmost failure under `pipefail`, inverted by `!`); no result depends on which process happens to run first"],
+ "C14": ["payloads far beyond the pipe capacity through pipelines of built-ins and `read` loops arrive complete, once and in order under every interleaving",
+         "command substitution removes exactly the trailing newlines and nothing else when the output is nested in another substitution, ends in many newlines, or contains carriage returns and other control bytes"],
+ "C15": ["a task woken by another task while it is being polled is polled again; a task is queued at most once however often it is woken",
+         "each spawned task's result is delivered to its receiver exactly once, also when tasks are spawned from inside a running task or the receiver is polled late"],
+ "C16": ["locals vanish at return while globals assigned inside persist; looking up a variable returns the value from the innermost visible scope (nested function calls, `typeset` with and without values, unset of a local)",
+         "the environment handed to executed programs is exactly the exported variables with their current values (after temporary assignments, re-assignment, unset, read-only export)"],
+ "C17": ["only an unquoted literal word in command position, or following an alias value that ends with a blank, or naming a global alias, is replaced",
+         "a name is not substituted again within its own replacement, including mutual recursion reached through blank-ending values; substitution terminates"],
+ "C18": ["whatever follows the current command on standard input remains available to commands that read that same input (`read`, subshells and `exec` redirections sharing fd 0)",
+         "each complete command runs before the next line is read or parsed: alias definitions and option changes of one line govern how the next line is parsed"],
+ "C19": ["working directory changes, `cd` and `pwd` through links and `..`, `exec` redirections and descriptor inheritance, appending to a file from several processes",
+         "`wait` for unknown or already collected children, `kill -0`, signals that are blocked or ignored when they arrive, a writer to a pipe whose reader is gone while SIGPIPE is ignored"],
+ "C20": ["`--` ends option parsing; a long option may be abbreviated to any unambiguous prefix and take its argument after `=` or as the next argument",
+         "equivalent spellings have an identical effect on the shell for state-changing built-ins (`set`, `typeset`, `export`, `readonly`, `trap`, `read`, `getopts`, `cd`, `unset`, `umask`)"],
+}
+ROUND_FOCUS = {"E": FOCUS_E}
+
 def main():
     rnd, pid = sys.argv[1], sys.argv[2]
     props = {json.loads(l)["id"]: json.loads(l) for l in open("/verif/properties.jsonl")}
     p = props[pid]
     wt = f"/tmp/seed{rnd}_{pid}"
     out = f"/tmp/seedout{rnd}_{pid}"
-    f1, f2 = FOCUS[pid]
+    f1, f2 = ROUND_FOCUS.get(rnd, FOCUS)[pid]
     print(f"""You are helping to evaluate a test suite. The code base is magicant/yash-rs (a Rust reimplementation of the yash POSIX shell). Your own scratch git worktree of it is at {wt} (already created, detached HEAD; work only there; never touch /repo or /verif, and do not read anything under /verif).
 
 A semantic property the code base is supposed to satisfy:
